@@ -238,3 +238,12 @@ package aggregate
 //@ func quantile
 //@   trusted float index arithmetic is outside the uninterpreted-float model (transcription of the reference's quantile)
 //@   assigns elems(float64)
+// hashMetric (C04, C19): output labels of a group. For without(...) the grouping labels AND the metric
+// name are deleted (the reference engine: lb.Del(grouping...); lb.Del(labels.MetricName)); for by(...)
+// only the grouping labels are kept. The label algebra itself (labels.Builder, hashing) is assumed.
+//@ func hashMetric
+//@   ensures[C04,C19] without-deletes-the-grouping-labels-and-the-metric-name: without ==> ncalls("labels.(*Builder).Del") == 2 && ncalls("labels.(*Builder).Keep") == 0
+//@   ensures[C04,C19] by-keeps-only-the-grouping-labels: !without && len(grouping) > 0 ==> ncalls("labels.(*Builder).Keep") == 1 && ncalls("labels.(*Builder).Del") == 0
+//@   at labels.(*Builder).Del #1 assert[C04] grouping-labels-deleted: sameslice($ns, grouping)
+//@   at labels.(*Builder).Del #2 assert[C04,C19] metric-name-deleted: len($ns) == 1 && $ns[0] == "__name__"
+//@   at labels.(*Builder).Keep assert[C04] grouping-labels-kept: sameslice($ns, grouping)
